@@ -14,7 +14,9 @@ from .families import sortkey
 
 
 class WalkError(Exception):
-    pass
+    """The container's state breaks the documented layout or one of the structural invariants.
+    Escaping from a property's case function it is an oracle verdict, not a harness error."""
+    is_verdict = True
 
 
 class Leaf:
